@@ -236,9 +236,6 @@ func runDial(d desc) hlib.Case {
 		if ph.SetIdx != nil {
 			if fasthttp.VerifC41SetAddrsIdx(dialer, addr, *ph.SetIdx) {
 				setidx = fmt.Sprintf("(Some %d)", *ph.SetIdx)
-				if uint64(*ph.SetIdx)+1+uint64(d.N) > 1<<32 {
-					key = "rotation-uint32-wrap"
-				}
 			}
 		}
 		type res struct {
@@ -271,9 +268,6 @@ func runDial(d desc) hlib.Case {
 		var rs []string
 		for _, r := range results {
 			rs = append(rs, fmt.Sprintf("(%d, %d, %s, %d)", r.t, r.to, r.r, r.el))
-			if key == "" && strings.Contains(oracle, "h") && strings.HasPrefix(r.r, "(XErr") && r.el <= int64(r.to)+200 {
-				key = "timeout-error-class-race"
-			}
 			sig[strings.Fields(strings.Trim(r.r, "()"))[0]+fmt.Sprint(len(ph.Starts) > 1)+fmt.Sprint(strings.Contains(oracle, "h"))] = true
 			total++
 		}
@@ -357,12 +351,7 @@ func runStress(d desc) hlib.Case {
 	for _, e := range eps {
 		e.close()
 	}
-	key := ""
-	if !d.Acc && strings.Contains(strings.Join(rs, ""), "XErr") && (d.Cap == 0 || maxin <= d.Cap) {
-		key = "timeout-error-class-race"
-	}
 	return hlib.Case{
-		Key:  key,
 		Coq:  fmt.Sprintf("CStress %d %d %d %d %s %s", d.Cap, d.N, d.To, maxin, hlib.Bool(d.Acc), hlib.List(rs)),
 		Sig:  fmt.Sprintf("stress:%d:%d:%v:%d", d.Cap, d.M, d.Acc, maxin),
 		Kind: "stress",
@@ -463,7 +452,7 @@ func corpus() []desc {
 		{Kind: "dial", Cap: 0, N: 3, Phases: []phaseD{{Oracle: "aaa", Starts: one(0, 100)}, {Oracle: "aaa", Starts: one(1, 100)}, {Oracle: "aaa", Starts: one(2, 100)}, {Oracle: "aaa", Starts: one(3, 100)}}},
 		// every address refuses: all are tried, the error carries the last one
 		{Kind: "dial", Cap: 1, N: 3, Phases: []phaseD{{Oracle: "rrr", Starts: one(0, 100)}, {Oracle: "rrr", Starts: one(1, 100)}, {Oracle: "rra", Starts: one(2, 100)}, {Oracle: "arr", Starts: one(3, 100)}, {Oracle: "rar", Starts: one(4, 100)}}},
-		// a hanging address ends the dial with ErrDialTimeout(upstream) at the deadline; the next address is not tried
+		// a hanging address ends the dial with ErrDialTimeout(upstream) at the deadline (never the socket's i/o timeout: fix 0bab23a); the next address is not tried
 		{Kind: "dial", Cap: 1, N: 2, Phases: []phaseD{{Oracle: "ha", Starts: one(0, 80)}, {Oracle: "ha", Starts: one(1, 80)}, {Oracle: "rh", Starts: one(2, 80)}, {Oracle: "rh", Starts: one(3, 80)}}},
 		// zero / tiny timeout: ErrDialTimeout before any connect
 		{Kind: "dial", Cap: 1, N: 2, Phases: []phaseD{{Oracle: "aa", Starts: one(0, 0)}, {Oracle: "aa", Starts: one(1, 100)}}},
@@ -471,7 +460,7 @@ func corpus() []desc {
 		{Kind: "dial", Cap: 1, N: 1, Phases: []phaseD{{Oracle: "h", Starts: []start{{0, 0, 180}, {25, 1, 60}}}, {Oracle: "a", Starts: one(2, 100)}}},
 		{Kind: "dial", Cap: 1, N: 1, Phases: []phaseD{{Oracle: "h", Starts: []start{{0, 0, 70}, {25, 1, 180}}}, {Oracle: "a", Starts: one(2, 100)}}},
 		{Kind: "dial", Cap: 2, N: 2, Phases: []phaseD{{Oracle: "hh", Starts: []start{{0, 0, 170}, {25, 1, 240}, {50, 2, 50}}}, {Oracle: "aa", Starts: one(3, 100)}}},
-		// the uint32 rotation counter wraps: with 3 addresses index 2^32-1 and index 0 name the same address
+		// the uint32 rotation counter wraps inside the dial (witnesses of the defect fixed by d625fef): every address must still be tried once
 		{Kind: "dial", Cap: 0, N: 3, Phases: []phaseD{{Oracle: "aaa", Starts: one(0, 100)}, {Oracle: "rra", SetIdx: u(1<<32 - 2), Starts: one(1, 100)}}},
 		{Kind: "dial", Cap: 0, N: 3, Phases: []phaseD{{Oracle: "aaa", Starts: one(0, 100)}, {Oracle: "rrr", SetIdx: u(1<<32 - 2), Starts: one(1, 100)}}},
 		{Kind: "dial", Cap: 0, N: 4, Phases: []phaseD{{Oracle: "aaaa", Starts: one(0, 100)}, {Oracle: "rrra", SetIdx: u(1<<32 - 2), Starts: one(1, 100)}}},
